@@ -1243,7 +1243,8 @@ func (pc *PeerConnection) validateRemoteDescription(desc *SessionDescription, is
 		}
 	}
 
-	return nil
+	// the codec / header extension matching done once the description is applied
+	return pc.api.mediaEngine.dryRunRemoteDescription(*desc.parsed)
 }
 
 // SetRemoteDescription sets the SessionDescription of the remote peer
